@@ -9,7 +9,7 @@
 //! per peer (so that a lost or duplicated established/closed event surfaces as an event the
 //! monitor can judge).
 use litep2p::{
-    verif::svc::{Cmd, ServiceHarness, SvcEvent},
+    verif::svc::{Cmd, Delivery, ServiceHarness, SvcEvent},
     PeerId,
 };
 use multiaddr::Multiaddr;
@@ -29,6 +29,8 @@ struct World {
     /// cid -> (peer name, "live" | "closing" | "dead")
     conns: BTreeMap<usize, (String, &'static str)>,
     next_cid: usize,
+    /// connections suspended in a delivery: cid -> the `deliver` stimulus that completes it
+    blocked: BTreeMap<usize, Value>,
     fault: String,
     panicked: bool,
     /// harness-side count of steps per stimulus kind
@@ -39,7 +41,7 @@ impl World {
     fn new(ka: &[bool], fault: &str) -> Self {
         let h = ServiceHarness::new(ka);
         let peers = PEERS.iter().map(|n| (n.to_string(), PeerId::random())).collect();
-        World { h, peers, conns: BTreeMap::new(), next_cid: 1, fault: fault.to_string(), panicked: false, out: vec![] }
+        World { h, peers, conns: BTreeMap::new(), next_cid: 1, blocked: BTreeMap::new(), fault: fault.to_string(), panicked: false, out: vec![] }
     }
     fn peer(&self, n: &str) -> PeerId {
         self.peers.iter().find(|(k, _)| k == n).expect("peer").1
@@ -49,6 +51,25 @@ impl World {
     }
     fn st(&self, c: usize) -> &'static str {
         self.conns.get(&c).map(|x| x.1).unwrap_or("none")
+    }
+    /// a new sender would get a slot of q's inbox at once (nobody is queued for it)
+    fn room(&self, q: usize) -> bool {
+        self.h.inbox_free(q) > 0 && !self.blocked.values().any(|d| d["q"] == q)
+    }
+    fn room_all(&self) -> bool {
+        (0..NQ).all(|q| self.room(q))
+    }
+    fn inbox_empty(&self, q: usize) -> bool {
+        self.h.inbox_len(q) == 0 && self.h.filler_len(q) == 0
+    }
+    fn delivery(d: Result<Delivery, String>) -> Value {
+        match d {
+            Ok(Delivery::Done(Ok(()))) => json!({"k": "ok"}),
+            Ok(Delivery::Done(Err(e))) => json!({"k": "err", "err": e}),
+            Ok(Delivery::Blocked) => json!({"k": "blocked"}),
+            Err(e) if e == "nopermit" => json!({"k": "nopermit"}),
+            Err(e) => json!({"k": "err", "err": e}),
+        }
     }
     fn live(&self) -> Vec<usize> {
         self.conns.iter().filter(|(_, x)| x.1 == "live").map(|(c, _)| *c).collect()
@@ -92,7 +113,8 @@ impl World {
             track.push(json!(t));
             inbox.push(self.h.inbox_len(q));
         }
-        json!({"conns": conns, "track": track, "inbox": inbox, "next": self.h.next_substream_id()})
+        let blk: Vec<usize> = self.blocked.keys().copied().collect();
+        json!({"conns": conns, "track": track, "inbox": inbox, "next": self.h.next_substream_id(), "blk": blk})
     }
 
     /// Apply one stimulus; the recorded line is appended to `self.out`. Returns false if the
@@ -110,7 +132,7 @@ impl World {
             "est" => {
                 let p = sp.clone().unwrap();
                 let c = self.next_cid;
-                if cid.map(|w| w != c).unwrap_or(false) {
+                if cid.map(|w| w != c).unwrap_or(false) || !self.room_all() {
                     return false;
                 }
                 let listener = c % 2 == 1;
@@ -129,11 +151,11 @@ impl World {
             }
             "close" => {
                 let c = cid.unwrap();
-                if self.st(c) != "live" {
+                if self.st(c) != "live" || self.blocked.contains_key(&c) || !self.room_all() {
                     return false;
                 }
                 let clog = s.get("clog").and_then(|x| x.as_i64()).unwrap_or(-1);
-                if clog >= 0 && self.h.inbox_len(clog as usize) != 0 {
+                if clog >= 0 && !self.inbox_empty(clog as usize) {
                     return false;
                 }
                 stim["p"] = json!(self.conns[&c].0);
@@ -153,7 +175,7 @@ impl World {
             }
             "drop" => {
                 let c = cid.unwrap();
-                if self.st(c) != "closing" {
+                if self.st(c) != "closing" || self.blocked.contains_key(&c) {
                     return false;
                 }
                 self.conns.get_mut(&c).unwrap().1 = "dead";
@@ -197,7 +219,7 @@ impl World {
             }
             "cmd" => {
                 let c = cid.unwrap();
-                if self.st(c) != "live" {
+                if self.st(c) != "live" || self.blocked.contains_key(&c) {
                     return false;
                 }
                 catch(|| self.h.next_command(c)).map(|r| {
@@ -211,30 +233,50 @@ impl World {
             }
             "reply" => {
                 let (c, id) = (cid.unwrap(), s["id"].as_u64().unwrap() as usize);
-                if self.st(c) != "live" || !self.h.pending_opens(c).iter().any(|(_, i)| *i == id) {
+                let Some((rq, _)) = self.h.pending_opens(c).into_iter().find(|(_, i)| *i == id) else { return false };
+                let full = s.get("full").and_then(|x| x.as_bool()).unwrap_or(false);
+                // one sender at a time waits for an inbox; an ordinary delivery needs a free slot
+                if self.st(c) != "live" || self.blocked.contains_key(&c) || self.blocked.values().any(|d| d["q"] == rq) || (!full && !self.room(rq)) {
                     return false;
                 }
                 let ok = s["ok"].as_bool().unwrap();
-                catch(|| self.h.reply(c, id, ok)).map(|r| {
-                    Some(match r {
-                        Ok(()) => json!({"k": "ok"}),
-                        Err(e) => json!({"k": "err", "err": e}),
-                    })
-                })
+                stim["full"] = json!(full);
+                stim["q"] = json!(rq);
+                let r = catch(|| self.h.reply(c, id, ok, full)).map(|r| Some(World::delivery(r)));
+                if let Ok(Some(v)) = &r {
+                    if v["k"] == "blocked" {
+                        self.blocked.insert(c, json!({"a": "deliver", "c": c, "what": "reply", "id": id, "ok": ok, "q": rq, "p": self.conns[&c].0}));
+                    }
+                }
+                r
             }
             "inbound" => {
                 let (c, q) = (cid.unwrap(), q.unwrap());
-                if self.st(c) != "live" {
+                let full = s.get("full").and_then(|x| x.as_bool()).unwrap_or(false);
+                if self.st(c) != "live" || self.blocked.contains_key(&c) || self.blocked.values().any(|d| d["q"] == q) || (!full && !self.room(q)) {
                     return false;
                 }
                 stim["p"] = json!(self.conns[&c].0);
-                catch(|| self.h.inbound(c, q)).map(|r| {
-                    Some(match r {
-                        Ok(()) => json!({"k": "ok"}),
-                        Err(e) if e == "nopermit" => json!({"k": "nopermit"}),
-                        Err(e) => json!({"k": "err", "err": e}),
-                    })
-                })
+                stim["full"] = json!(full);
+                let r = catch(|| self.h.inbound(c, q, full)).map(|r| Some(World::delivery(r)));
+                if let Ok(Some(v)) = &r {
+                    if v["k"] == "blocked" {
+                        self.blocked.insert(c, json!({"a": "deliver", "c": c, "what": "inbound", "id": -1, "ok": true, "q": q, "p": self.conns[&c].0}));
+                    }
+                }
+                r
+            }
+            "deliver" => {
+                let c = cid.unwrap();
+                let Some(d) = self.blocked.get(&c).cloned() else { return false };
+                stim = d;
+                let r = catch(|| self.h.deliver(c)).map(|r| r.map(|d| World::delivery(Ok(d))));
+                if let Ok(Some(v)) = &r {
+                    if v["k"] != "blocked" {
+                        self.blocked.remove(&c);
+                    }
+                }
+                r
             }
             "fclose" => {
                 let (q, p) = (q.unwrap(), self.peer(sp.as_ref().unwrap()));
@@ -247,7 +289,7 @@ impl World {
             }
             "expire" => {
                 let (q, p, c) = (q.unwrap(), self.peer(sp.as_ref().unwrap()), cid.unwrap());
-                if self.h.inbox_len(q) != 0 {
+                if !self.inbox_empty(q) {
                     return false;
                 }
                 catch(|| {
@@ -281,7 +323,7 @@ impl World {
     fn poll_all(&mut self) {
         for q in 0..NQ {
             let mut guard = 0;
-            while !self.panicked && self.h.inbox_len(q) > 0 && guard < 10_000 {
+            while !self.panicked && !self.inbox_empty(q) && guard < 10_000 {
                 self.apply(&json!({"a": "poll", "q": q}));
                 guard += 1;
             }
@@ -295,36 +337,60 @@ impl World {
 
     /// Bring the execution to quiescence: nothing queued, nothing unanswered, every inbox empty.
     fn settle(&mut self, rng: &mut StdRng) {
-        let closing: Vec<usize> = self.conns.iter().filter(|(_, x)| x.1 == "closing").map(|(c, _)| *c).collect();
-        for c in closing {
-            self.apply(&json!({"a": "drop", "c": c}));
-        }
-        for c in self.live() {
-            loop {
-                if self.panicked || !self.apply(&json!({"a": "cmd", "c": c})) {
-                    break;
-                }
-                let k = self.last_ret()["k"].as_str().unwrap().to_string();
-                match k.as_str() {
-                    "open" => continue,
-                    "force" | "none" => {
-                        // a real connection closes itself now; unanswered requests go with it
-                        self.close_and_drop(c);
+        for _round in 0..6 {
+            if self.panicked {
+                return;
+            }
+            // protocols drain their inboxes (filler included), suspended deliveries complete
+            self.poll_all();
+            for c in self.blocked.keys().copied().collect::<Vec<_>>() {
+                self.apply(&json!({"a": "deliver", "c": c}));
+            }
+            let closing: Vec<usize> = self.conns.iter().filter(|(_, x)| x.1 == "closing").map(|(c, _)| *c).collect();
+            for c in closing {
+                self.apply(&json!({"a": "drop", "c": c}));
+            }
+            for c in self.live() {
+                loop {
+                    if self.panicked || !self.apply(&json!({"a": "cmd", "c": c})) {
                         break;
                     }
-                    _ => break,
+                    let k = self.last_ret()["k"].as_str().unwrap().to_string();
+                    match k.as_str() {
+                        "open" => continue,
+                        "force" | "none" => {
+                            // a real connection closes itself now; unanswered requests go with it
+                            self.close_and_drop(c);
+                            break;
+                        }
+                        _ => break,
+                    }
+                }
+                if self.st(c) == "live" {
+                    for (_, id) in self.h.pending_opens(c) {
+                        self.apply(&json!({"a": "reply", "c": c, "id": id, "ok": rng.gen_bool(0.5)}));
+                    }
                 }
             }
-            if self.st(c) == "live" {
-                for (_, id) in self.h.pending_opens(c) {
-                    self.apply(&json!({"a": "reply", "c": c, "id": id, "ok": rng.gen_bool(0.5)}));
-                }
+            self.poll_all();
+            if self.settled() {
+                break;
             }
         }
-        self.poll_all();
-        if !self.panicked {
+        if !self.panicked && self.settled() {
             self.out.push(json!({"e": "quiesce"}).to_string());
         }
+    }
+
+    /// nothing is in flight anywhere (the harness' own bookkeeping plus read-only projections)
+    fn settled(&self) -> bool {
+        self.blocked.is_empty()
+            && (0..NQ).all(|q| self.inbox_empty(q))
+            && self.conns.iter().all(|(c, x)| match x.1 {
+                "closing" => false,
+                "live" => self.h.pending_opens(*c).is_empty(),
+                _ => true,
+            })
     }
 
     fn epilogue(&mut self, rng: &mut StdRng) {
@@ -348,7 +414,9 @@ impl World {
             if self.panicked {
                 break;
             }
-            self.apply(&json!({"a": "est", "p": p}));
+            if !self.apply(&json!({"a": "est", "p": p})) {
+                continue;
+            }
             let c = self.next_cid - 1;
             self.poll_all();
             for q in 0..NQ {
@@ -358,7 +426,7 @@ impl World {
             self.close_and_drop(c);
             self.poll_all();
         }
-        if !self.panicked {
+        if !self.panicked && self.settled() {
             self.out.push(json!({"e": "quiesce"}).to_string());
         }
     }
@@ -382,7 +450,7 @@ impl World {
         }
         for q in 0..NQ {
             v.push(json!({"a": "poll", "q": q}));
-            if self.h.inbox_len(q) > 0 {
+            if !self.inbox_empty(q) {
                 v.push(json!({"a": "poll", "q": q}));
                 v.push(json!({"a": "poll", "q": q}));
             } else {
@@ -399,16 +467,21 @@ impl World {
             match *st {
                 "live" => {
                     let clog = if rng.gen_bool(0.08) { rng.gen_range(0..NQ as i64) } else { -1 };
-                    if clog < 0 || self.h.inbox_len(clog as usize) == 0 {
+                    if self.blocked.contains_key(c) {
+                        v.push(json!({"a": "deliver", "c": c}));
+                        v.push(json!({"a": "deliver", "c": c}));
+                        continue;
+                    }
+                    if clog < 0 || self.inbox_empty(clog as usize) {
                         v.push(json!({"a": "close", "c": c, "clog": clog}));
                     }
                     v.push(json!({"a": "cmd", "c": c}));
                     v.push(json!({"a": "cmd", "c": c}));
                     for (_, id) in self.h.pending_opens(*c) {
-                        v.push(json!({"a": "reply", "c": c, "id": id, "ok": rng.gen_bool(0.5)}));
-                        v.push(json!({"a": "reply", "c": c, "id": id, "ok": rng.gen_bool(0.5)}));
+                        v.push(json!({"a": "reply", "c": c, "id": id, "ok": rng.gen_bool(0.5), "full": rng.gen_bool(0.12)}));
+                        v.push(json!({"a": "reply", "c": c, "id": id, "ok": rng.gen_bool(0.5), "full": false}));
                     }
-                    v.push(json!({"a": "inbound", "c": c, "q": rng.gen_range(0..NQ)}));
+                    v.push(json!({"a": "inbound", "c": c, "q": rng.gen_range(0..NQ), "full": rng.gen_bool(0.06)}));
                 }
                 "closing" => {
                     v.push(json!({"a": "drop", "c": c}));
